@@ -254,7 +254,7 @@ PROPS["C12"] = {
 }
 
 COMPOSE_DIFF = {"slice": "compose", "n_quick": 640, "n_thorough": 6400, "seeds_thorough": 3, "n_search": 3200, "par": 16}
-COMPOSE_RULE = ("compose slice: random stacks (depth 0-5, with repetition) of retry / breaker / bulkhead / rate limiter / fallback / cache / timeout "
+COMPOSE_RULE = ("compose slice (retry policies optionally with a max duration and scripts with outcomes that outlast it; scripted cancellation points, see C08): random stacks (depth 0-5, with repetition) of retry / breaker / bulkhead / rate limiter / fallback / cache / timeout "
                 "(+ an innermost hedge in 1 of 6 cases) built from the real builders with random configurations and handle/abort/cancel "
                 "conditions; 1-5 successive executions per case against the same stateful instances, scripts of 0-8 outcomes (values 0-2, four "
                 "error kinds, blocking-until-cancelled outcomes when something can release them), context cache keys, standalone bulkhead "
@@ -335,13 +335,14 @@ PROPS["C02"] = {
                               "bodies/retry:config.Build", "effects/retry:config.allowsRetries"],
     "required_theorems": ["Failsafe.Props.C02.retry_budget", "Failsafe.Props.C02.budget_fresh", "Failsafe.Props.C02.retry_stops_on_success",
                           "Failsafe.Props.C02.retry_final_result", "Failsafe.Props.C02.retry_abort_stops", "Failsafe.Props.C02.retry_exhausted_passthrough",
-                          "Failsafe.Props.C02.retryOnFailure_failed", "Failsafe.Props.C02.retryOnFailure_exceeded", "Failsafe.Props.C02.retryOnFailure_not_done"],
+                          "Failsafe.Props.C02.retryOnFailure_failed", "Failsafe.Props.C02.retryOnFailure_exceeded", "Failsafe.Props.C02.retryOnFailure_not_done",
+                          "Failsafe.Props.C02.retry_stops_after_max_duration"],
     "diff": [COMPOSE_DIFF], "rule": COMPOSE_RULE, "assumptions": COMPOSE_ASSUME, "runners": [runner_retrytiming_maxduration],
-    "modelled": COMPOSE_MODELLED + ["max duration (elapsed-time exhaustion) is not part of the sequential model; its decision expression is pinned by the body fact of OnFailure and the clamp by C13",
+    "modelled": COMPOSE_MODELLED + ["max duration: in the model `ElapsedTime() > maxDuration` holds exactly when a 'sleeping' outcome (75 ms against a 45 ms max duration) has occurred in the execution; scripts with sleeping outcomes contain no blocking ones and no hedge; the delay clamp is C13",
                                     "concurrent executions sharing one policy: the executor state is per execution by construction (ToExecutor body fact); schedules are sampled by the C14 stress run"],
     "manifest": {
-        "text": "Lean 4 theorems about the retry layer for an arbitrary inner layer: with maxRetries = m >= 0 the executor counts at most m+1 failures per execution and is exhausted once the count passes m (inductive invariant Budget over the loop, any fuel), so it re-invokes what it wraps at most m times; a non-failure ends the loop at once unchanged; an abort match ends it; the final result is ExceededError{last result, last error} when exhausted (the last outcome itself with ReturnLastFailure), else the stopping outcome unchanged; an exhausted executor passes inner results through; every execution starts from an empty executor state. Tie: FACTS (bodies of OnFailure, Apply, ToExecutor, Build), GEN (IsFailure, IsAbortable, flag algebra), DIFF of random stacks incl. nested retries, maxRetries in {0,1,2,3,-1}, overlapping handle/abort conditions.",
-        "note": "Trusted: Lean kernel; translator/fact extractor; harness. Max duration is not in the sequential model (body fact + C13). Concurrency clause rests on the per-execution executor (FACTS) and the C14 stress run.",
+        "text": "Lean 4 theorems about the retry layer for an arbitrary inner layer: with maxRetries = m >= 0 the executor counts at most m+1 failures per execution and is exhausted once the count passes m (inductive invariant Budget over the loop, any fuel), so it re-invokes what it wraps at most m times; a non-failure ends the loop at once unchanged; an abort match ends it; a failure handled once the max duration has elapsed ends the loop whatever the budget (retry_stops_after_max_duration); the final result is ExceededError{last result, last error} when exhausted (the last outcome itself with ReturnLastFailure), else the stopping outcome unchanged; an exhausted executor passes inner results through; every execution starts from an empty executor state. Tie: FACTS (bodies of OnFailure, Apply, ToExecutor, Build), GEN (IsFailure, IsAbortable, flag algebra), DIFF of random stacks incl. nested retries, maxRetries in {0,1,2,3,-1}, overlapping handle/abort conditions.",
+        "note": "Trusted: Lean kernel; translator/fact extractor; harness. Max duration enters the model through scripted outcomes that outlast it (real time in the DIFF with wide margins). Concurrency clause rests on the per-execution executor (FACTS) and the C14 stress run.",
         "technique": "Lean 4 proof (inductive invariant over the retry loop, arbitrary inner layer) + structural facts + differential correspondence"},
 }
 PROPS["C16"] = {
